@@ -378,8 +378,13 @@ def run_unit(u, wd, tier):
             unknown.append(res.get("property"))
     r["obligations"] = len(obligations)
     r["canary"] = canary_hit if canary_seen else None
+    if not r["backend"]:
+        r["backend"] = {"cvc5": "cvc5 (SMT2 back end, bit-blasted floats)", "z3": "z3 (SMT2 back end)", "cadical": "CaDiCaL (SAT)", "kissat": "kissat (external SAT)"}.get(u.solver or "", "MiniSat 2.2.1 (cbmc built-in SAT)")
+    if not r["solver_s"]:
+        r["solver_s"] = round(t, 2)   # cbmc does not report solver time at this verbosity: wall time of the whole cbmc call (symex + solver), an upper bound
     names = [o.get("property", "") + " " + o.get("description", "") for o in obligations]
-    for o in obligations[:: max(1, len(obligations) // 4)][:4]:
+    user = [o for o in obligations if ".assertion." in (o.get("property") or "") or "postcondition" in (o.get("property") or "") or "loop_invariant" in (o.get("property") or "")]
+    for o in (user[:3] + obligations[:: max(1, len(obligations) // 4)][:2]):
         loc = o.get("sourceLocation", {})
         r["samples"].append({"obligation": o.get("property"), "description": o.get("description"),
                              "at": "%s:%s" % (loc.get("file"), loc.get("line")), "status": o.get("status")})
@@ -673,6 +678,7 @@ def main():
                 "explanation": P.get("explanation", ""),
                 "back_end": "cbmc 6.11.0 bit-precise SAT (MiniSat 2.2.1 unless a unit names another solver)",
                 "solver_s_total": round(sum(r["solver_s"] for u, r in results), 2),
+                "solver_s_note": "per unit: cbmc's reported decision-procedure time where available, otherwise the wall time of the cbmc call (upper bound)",
                 "evaluations": sum(r["obligations"] for u, r in results),
                 "distinct_nontrivial": sum(r["obligations"] for u, r in results),
                 "rule": "one evaluation = one proof obligation generated by cbmc/goto-instrument from /repo's current source and decided by the back end; canary obligations excluded",
